@@ -77,6 +77,13 @@ def v1_inputs(rng, tier, k=None):
         c = ch.encode("utf-8")
         for body in (b"PROXY UNKNOWN ", b"PROXY UNKNOWN", b"", b"PROXY TCP4 1.1.1.1 2.2.2.2 1 2", b"PROXY "):
             pool += [body + c + b"\r\n", body + c + b"au\r\nrest", body + b"\r" + c, c + body + b"\r\n", body + c, body + c + c + b"\r\n" + c]
+    # every alignment of 2-, 3- and 4-byte characters across offsets 100..112 (scan / window limits)
+    for ch in (b"\xc3\xa9", b"\xe2\x82\xac", b"\xf0\x9f\x98\x80"):
+        for shift in range(0, 5):
+            tail_ = b"a" * shift + ch * (1 + 120 // len(ch))
+            for head_ in (b"PROXY UNKNOWN\r\n", b"PROXY TCP4 1.2.3.4 5.6.7.8 1 2\r\n", b"PROXY UNKNOWN ", b"", b"PROXY UNKNOWN \r"):
+                pool.append(head_ + tail_)
+                pool.append(head_ + tail_[:100] + b"\r\n" + tail_[:9])
     # multi-byte text around the 107-byte limit (bytes vs characters)
     for k in range(40, 52):
         for pad in (b"", b"a"):
@@ -469,6 +476,12 @@ class C06(Prop):
 
 class C08(Prop):
     id = "C08"
+
+    def project(self, op, line):
+        if op.startswith("v1"):
+            return tuple((res1(p_).get("hdr"), res1(p_).get("disp")) for p_ in line.split(" | ")[:2])
+        return line
+
     required = ["C08.dec_roundtrip", "C08.ipv4_roundtrip", "C08.ipv6_roundtrip", "C08.format_is_line", "C08.format_length", "C08.format_parses_back", "C08.format_parses_back_tcp4", "C08.format_injective", "C08.display_is_header"]
     rule = ("all 256 zero/non-zero segment patterns x fillers, all 2^16 ports (as source or destination), random IPv4/IPv6 pairs with source != destination, "
             "IPv4-mapped forms; formatted text parsed back through the four text entry points; non-trivial = distinct address pairs with a zero-run pattern not seen before")
@@ -494,6 +507,12 @@ class C08(Prop):
             else:
                 ops.append("rt1 tcp6/%s/%s/%d/%d" % (V.groups_to_bytes(V.rand_ip6_groups(rng)).hex(), V.groups_to_bytes(V.rand_ip6_groups(rng)).hex(), V.rand_port(rng), V.rand_port(rng)))
         ops.append("rt1 tcp6/%s/%s/65535/65535" % ("ff" * 16, "ff" * 16))
+        # a parsed header formats back to exactly the text it was parsed from — in particular
+        # non-canonical but valid spellings
+        for l in V.valid_lines(rng, 300 if tier == "quick" else 8000):
+            ops.append("v1b " + C.hexs(l + rng.choice(V.TRAILERS)))
+            if V.valid_utf8(l):
+                ops.append("v1s " + C.hexs(l))
         # std Display against its model: all ports, octet sweeps, all zero-run patterns
         for p_ in range(65536):
             ops.append("u16d %d" % p_)
@@ -511,6 +530,13 @@ class C08(Prop):
         out = []
         seen = {}
         for op, il in zip(ops, impl):
+            if op.startswith("v1"):
+                for part in il.split(" | ")[:2]:
+                    r = res1(part)
+                    if r["k"] == "ok" and (r.get("disp") != r.get("hdr") or r.get("owned") != "1"):
+                        out.append(Violation("relation", op, il[:300], None, "a parsed header does not format back to the text it was parsed from"))
+                        break
+                continue
             if not op.startswith("rt1"):
                 if op.startswith("u16d") and C.unhex(il) != op.split(" ")[1].encode():
                     out.append(Violation("relation", op, il, None, "decimal Display"))
@@ -882,6 +908,21 @@ class C19(Prop):
         for _ in range(n // 10):
             s, d = G.rand_bytes(rng, 108), G.rand_bytes(rng, 108)
             add("ctor unix %s %s" % (s.hex(), d.hex()), ("unix", s, d))
+        # special addresses in every pairing: IPv4-mapped / -compatible / NAT64 V6, loopback, unspecified, broadcast
+        v4s = [bytes([0, 0, 0, 0]), bytes([127, 0, 0, 1]), bytes([255] * 4), bytes([10, 1, 2, 3]), bytes([192, 168, 0, 1])]
+        v6s = [bytes(16), bytes(15) + b"\x01", b"\xff" * 16]
+        for a in v4s:
+            v6s += [bytes(10) + b"\xff\xff" + a, bytes(12) + a, bytes.fromhex("0064ff9b") + bytes(8) + a]
+        k = 0
+        for sa in v4s + v6s:
+            for da in v4s + v6s:
+                k += 1
+                sp, dp = (1000 + k) % 65536, (40000 + 7 * k) % 65536
+                def sock(x, p):
+                    return "v4/%s/%d" % (x.hex(), p) if len(x) == 4 else "v6/%s/%d/%d/%d" % (x.hex(), p, k, k + 1)
+                kind = ("4" if len(sa) == 4 else "6") + ("4" if len(da) == 4 else "6")
+                add("ctor sock %s %s" % (sock(sa, sp), sock(da, dp)),
+                    ("sock", kind, sa if len(sa) == 4 else b"", da if len(da) == 4 else b"", sa if len(sa) == 16 else b"", da if len(da) == 16 else b"", sp, dp))
         return ops
 
     def relation(self, ops, impl):
